@@ -18,6 +18,7 @@ var TamperKinds = []string{
 	"sig-corrupt",   // flip bytes of RRSIG signatures
 	"sig-signer",    // rewrite the signer name (signature no longer matches)
 	"sig-resign",    // replace RRSIGs by ones made with the attacker zone's key and name
+	"forge-resign",  // change the record data AND sign it with the attacker zone's key and name
 	"sig-labels",    // change the labels field
 	"sig-expired",   // move the validity window into the past
 	"sig-future",    // move the validity window into the future
@@ -134,9 +135,16 @@ func Apply(kind string, a *Answer, attacker, other *Zone) (*dns.Msg, bool) {
 			}
 			return s
 		})
-	case "sig-resign":
+	case "sig-resign", "forge-resign":
 		if attacker == nil || !attacker.Signed {
 			return nil, false
+		}
+		if kind == "forge-resign" {
+			forged, ok := Apply("flip-rdata", a, attacker, other)
+			if !ok {
+				return nil, false
+			}
+			m = forged
 		}
 		// group each section's RRsets and sign them with the attacker's key and name
 		resign := func(sec []dns.RR) []dns.RR {
